@@ -340,9 +340,9 @@ class Runner:
             text = ""
         return rc, out, text
 
-    def verify(self, d, ws):
+    def verify(self, d, ws, cwd=None):
         rc, out = vlib.sh([self.exe, "verify", ws, "c11", os.path.join(d, "vscratch")], env={"GLOG_minloglevel": "3"},
-                          timeout=600)
+                          timeout=600, cwd=cwd)
         r = {"rc": rc, "pre": None, "opened": False, "recovery": 0, "post": None, "usable": False, "raw": out[-1500:]}
         for line in out.splitlines():
             p = line.split(" ")
@@ -492,6 +492,84 @@ def damage_once(R, rec):
     elif not v["usable"]:
         clause = "unusable-after-reopen"
     return {"clause": clause, "recovery": v["recovery"], "post": v["post"], "want": want, "raw": v["raw"] if clause else None}
+
+
+USERID_KEY = "012f757365725f6964"
+
+
+def snapshot_of(state):
+    """the uniform snapshot (TSV) UserDbHelper::UniformBackup writes for a dumped state"""
+    dd = dump_dict(state)
+    out = [b"# Rime user dictionary"]
+    for k in sorted(dd):
+        if k.startswith("01"):
+            out.append(b"#@" + bytes.fromhex(k[2:]) + b"\t" + bytes.fromhex(dd[k]))
+    for k in sorted(dd):
+        if not k.startswith("01"):
+            out.append(bytes.fromhex(k) + b"\t" + bytes.fromhex(dd[k]))
+    return b"\n".join(out) + b"\n"
+
+
+def prefix_states(rec):
+    """the durable states whole commits produce along the recorded run (spec level with the hook, per API call without)"""
+    if rec.drv:
+        out = [e["specdur"] for e in rec.drv["evs"]]
+    else:
+        out = [rec.real_dump(k) for k in sorted(rec.log["dumps"])]
+    seen, res = set(), []
+    for x in out:
+        if x not in seen and x not in (None, "-") and proj(x)[0]:      # (a state with at least one entry)
+            seen.add(x)
+            res.append(x)
+    return res
+
+
+def damage_unrepairable(R, rec, variant, rng, snapshot=None):
+    """not a kill: the dictionary's directory is replaced by a regular file, so LevelDb::Open fails AND RepairDB fails; the
+    recovery task has to move the wreck aside, create the dictionary anew and bring back what the snapshot in the sync
+    directory holds (`<name>.userdb.txt`, else the old `<name>.userdb.snapshot`), if there is one.  variant: 'txt' | 'old' |
+    'none'.  The snapshot planted is a state whole commits produced earlier in this run."""
+    dbdir = os.path.join(rec.ws, "c11.userdb")
+    states = prefix_states(rec)
+    if not os.path.isdir(dbdir) or not states:
+        return None
+    shutil.rmtree(dbdir)
+    with open(dbdir, "wb") as f:
+        f.write(b"not a database\n")
+    shutil.rmtree(dbdir + ".old", ignore_errors=True)
+    uid = bytes.fromhex(rec.meta_consts.get(USERID_KEY, "756e6b6e6f776e")).decode("latin1")
+    # (a process that runs no maintenance keeps the deployer's defaults: sync directory "sync" relative to the working
+    # directory, user id "unknown")
+    snap_state = None
+    syncd = os.path.join(rec.ws, "sync", "unknown")
+    shutil.rmtree(os.path.join(rec.ws, "sync"), ignore_errors=True)
+    if variant != "none":
+        snap_state = snapshot if snapshot in states else rng.choice(states)
+        os.makedirs(syncd)
+        with open(os.path.join(syncd, "c11.userdb.txt" if variant == "txt" else "c11.userdb.snapshot"), "wb") as f:
+            f.write(snapshot_of(snap_state))
+    v = R.verify(rec.dir, rec.ws, cwd=rec.ws)
+    fresh = dict(rec.meta_consts)
+    fresh[USERID_KEY] = "756e6b6e6f776e"          # the verifying process never ran the installation update: "unknown"
+    want = dict(fresh)
+    want.update(dump_dict(snap_state) if snap_state else {})
+    if TICK_KEY not in want:
+        want[TICK_KEY] = "30"
+    want = canon(want)
+    allowed = {proj(x) for x in states} | {proj("-")}
+    clause = None
+    if not v["opened"] or v["post"] is None:
+        clause = "reopen-failed"
+    elif proj(v["post"]) not in allowed:
+        clause = "not-a-commit-prefix"
+    elif not v["usable"]:
+        clause = "unusable-after-reopen"
+    elif v["post"] != want:
+        clause = "snapshot-not-restored"
+    elif not os.path.isfile(dbdir + ".old"):
+        clause = "wreck-not-kept"
+    return {"clause": clause, "variant": variant, "recovery": v["recovery"], "post": v["post"], "want": want,
+            "snapshot": snap_state, "raw": v["raw"] if clause else None}
 
 
 def pick_kills(rec, quick, rng, budget):
@@ -775,6 +853,24 @@ def run(c):
                          "dictionary that %s" % {"reopen-failed": "does not open", "unusable-after-reopen": "cannot be committed to"}.get(
                              dm["clause"], "is not the last flushed state"),
                          {"kind": "damage", "history": hist, "detail": dm, "mode": "hook" if hook else "nohook", "found_in": name})
+        # (last: it destroys the recorded dictionary) damage RepairDB cannot mend
+        variant = ["txt", "old", "none", "txt"][stats["damage_scenarios"] % 4]
+        du = damage_unrepairable(R, rec, variant, c.rng)
+        if du:
+            stats["unrepairable_scenarios"] = stats.get("unrepairable_scenarios", 0) + 1
+            stats["unrepairable_with_snapshot"] = stats.get("unrepairable_with_snapshot", 0) + (1 if du["snapshot"] else 0)
+            if du["clause"]:
+                c.report("C11:damage:" + du["clause"],
+                         "with the dictionary's directory replaced by a file (not a kill; RepairDB fails) and %s in the sync "
+                         "directory, the built-in recovery leaves a dictionary that %s" % (
+                             {"txt": "a snapshot c11.userdb.txt", "old": "an old-style snapshot c11.userdb.snapshot",
+                              "none": "no snapshot"}[variant],
+                             {"reopen-failed": "does not open", "unusable-after-reopen": "cannot be committed to",
+                              "not-a-commit-prefix": "holds what no prefix of the commits made produces",
+                              "snapshot-not-restored": "does not hold what the snapshot holds",
+                              "wreck-not-kept": "is fine, but the damaged file was not kept as c11.userdb.old"}[du["clause"]]),
+                         {"kind": "damage-unrepairable", "history": hist, "variant": variant, "detail": du,
+                          "mode": "hook" if hook else "nohook", "found_in": name})
         rec.cleanup()
         for clause, det in tf:
             stats["trace_mismatches"] += 1
@@ -845,6 +941,15 @@ def replay(c, r):
         dm = damage_once(R, rec)
         print("replay: damage scenario -> %s (recovery=%s)" % ((dm or {}).get("clause") or "ok", (dm or {}).get("recovery")))
         bad += 1 if dm and dm["clause"] else 0
+    if r.get("kind") == "damage-unrepairable":
+        import random
+        # (the planted snapshot is a prefix state chosen by the seed; every choice must be restored)
+        du = damage_unrepairable(R, rec, r.get("variant", "txt"), random.Random(c.seed), (r.get("detail") or {}).get("snapshot"))
+        print("replay: unrepairable damage (%s) -> %s (recovery=%s)" % (r.get("variant"), (du or {}).get("clause") or "ok",
+                                                                       (du or {}).get("recovery")))
+        if du and du["clause"]:
+            print("        post=%s\n        want=%s" % (du["post"], du["want"]))
+        bad += 1 if du and du["clause"] else 0
     if "kill_index" in r:
         res = kill_once(R, rec, int(r["kill_index"]), bool(r.get("torn")))
         if not res["fired"]:
